@@ -99,9 +99,10 @@ PROPS = {
     },
     'C19': {
         'props_file': 'props/C19.v',
-        'domains': [{'name': 'loc-acl', 'quick': 400, 'thorough': 20000, 'thorough_shards': 10}],
+        'domains': [{'name': 'loc-acl', 'quick': 400, 'thorough': 20000, 'thorough_shards': 10},
+                    {'name': 'cron-sys', 'ok_is_spec': True, 'quick': 48, 'thorough': 600, 'thorough_shards': 5}],
         'spec_ops': [],
-        'corr': 'corr.loc (CorrLoc.check_loc) on the ACL profile + gen/GateTable.v regenerated from the Go source',
+        'corr': 'corr.loc (CorrLoc.check_loc) on the ACL profile + gen/GateTable.v regenerated from the Go source; cron-sys (a third of its cases: every location has a write key, every client presents it, the scheduled rules write through the cron service\'s sub-context)',
         'rule': 'loc-acl: every Location operation issued with no / wrong / right read and write keys against locations whose protection changes during the '
                 'history (!writeKey, !readKey, !enabled property facts set and removed, SetReadOnly), state and storage observed through later reads, sizes and '
                 'reloads; non-trivial = at least 3 distinct (op, outcome) kinds; distinct by hash of inputs',
